@@ -1158,3 +1158,68 @@ func init() {
 			Why: "'> \\t# foo': the heading's span then starts on the tab"},
 	)
 }
+
+// ---------------------------------------------------------------------------------------------
+// FENCE-INDENT (C09, C06): the indentation remembered for a fenced code block is the indentation of its fence
+// relative to the enclosing container — the value p.Indent() returned and ConsumeIndent consumed at the block start.
+
+func ruleFenceIndent(c *Ctx) {
+	c.Rule("FENCE-INDENT", "Up to as many columns of indentation as the opening fence had are stripped from every line of a fenced code block. That number is relative to the enclosing container: it is the value p.Indent() returned at the block start, the same value that is handed to ConsumeIndent before the block is opened. In the block-start rule that opens a fenced code block, that very value is what is remembered — it is an argument of the opening call, or of a SetContainerIndent call that the opening call dominates. A rule that records the cursor's absolute column instead strips too much inside a block quote or list item (where the column includes the container's prefix): '    y()' keeps its four spaces at top level and loses them when the document is quoted.")
+	p := c.P
+	n := 0
+	for idx, fn := range blockStartFuncs(p) {
+		if fn == nil || fn.Blocks == nil {
+			continue
+		}
+		eachInstr(fn, func(in ssa.Instruction) {
+			call, name := lpCall(in)
+			if call == nil || name != "OpenFencedCodeBlock" {
+				return
+			}
+			n++
+			key := fmt.Sprintf("blockStarts[%d]:fence-indent", idx)
+			// the indent value consumed before the open
+			var consumed ssa.Value
+			eachInstr(fn, func(x ssa.Instruction) {
+				if cc, nm := lpCall(x); cc != nil && nm == "ConsumeIndent" && (cc.Block() == call.Block() || cc.Block().Dominates(call.Block())) {
+					arg := cc.Call.Args[1]
+					if ic, ok := arg.(*ssa.Call); ok {
+						if _, nm2 := lpCall(ic); nm2 == "Indent" {
+							consumed = arg
+						}
+					}
+					if ex, ok := arg.(*ssa.Extract); ok {
+						consumed = ex
+					}
+				}
+			})
+			if consumed == nil {
+				c.Undecided("FENCE-INDENT", key, call.Pos(), "no ConsumeIndent(p.Indent()) in front of the opening call (OPEN-AT-MARKER reports that)")
+				return
+			}
+			good := false
+			for _, a := range call.Call.Args[1:] {
+				if a == consumed {
+					good = true
+				}
+			}
+			eachInstr(fn, func(x ssa.Instruction) {
+				if cc, nm := lpCall(x); cc != nil && nm == "SetContainerIndent" && (cc.Block() == call.Block() || call.Block().Dominates(cc.Block())) && cc.Call.Args[1] == consumed {
+					good = true
+				}
+			})
+			c.Check(good, "FENCE-INDENT", key, call.Pos(), "the indentation consumed in front of the fence is not what is remembered for the block (neither an argument of the opening call nor of a SetContainerIndent call after it)")
+		})
+	}
+	if n < 1 {
+		c.Undecided("FENCE-INDENT", "instance-count", token.NoPos, "no block-start rule opens a fenced code block through OpenFencedCodeBlock")
+	}
+}
+
+func init() {
+	addControls(
+		Control{Name: "fence-indent-not-recorded-at-block-start", Props: []string{"C09", "C06"}, File: "blocks.go",
+			Old: "\t\tp.OpenFencedCodeBlock(f.char, f.n)\n\t\tp.SetContainerIndent(indent)\n", New: "\t\tp.OpenFencedCodeBlock(f.char, f.n)\n\t\tp.SetContainerIndent(p.col)\n", Expect: "FENCE-INDENT/blockStarts[2]",
+			Why: "the absolute column includes the container's prefix: code lines lose their own indentation inside a quote or list item"},
+	)
+}
